@@ -83,5 +83,5 @@ def run(ctx):
                        "readDelimitedMessageRaw / ReadDelimitedMessage / protoDecoder / jsonDecoder / writer; non-trivial = "
                        "result is not a lone clean EOF or the chunking has more than one read. Recorded executions over long "
                        "random streams are accepted line by line by Trace_Framing (obs = Decode).")
-    ctx.assumptions += ["zero-length Reads return (0,nil) immediately (os.File semantics)",
+    ctx.assumptions += ["two reader flavours: zero-length Reads return at once (os.File) and, for stall scenarios, block until the next write/close (io.Pipe - what the runner reads its peers through)",
                         "stall = reader that never returns; real timeout shortened to 150 ms via the function's own parameter"]
